@@ -593,6 +593,46 @@ def oracle_be_newton_linear(c, out):
                 f"(h_start={m['h_start']!r}, time_step={dt!r})")
     return None
 
+def oracle_be_unconverged_linear(c, out):
+    """backward Euler, LINEAR mechanism, max_number_of_steps = 1 (the convergence test is never made): every outer
+    iteration fails, the reductions are used up and the call accepts the un-converged iterate of the last H.  On a
+    linear mechanism one Newton iteration from y_n is exact, so "the State holds the solution at final_time_" means
+    y = (I - H A)^(-1) y_0 with H = final_time_ (no step was accepted before)."""
+    s = parse_solve(out) if out else None
+    if s is None:
+        return f"Solve did not return a result: '{(out or '')[:80]}'"
+    m = c.meta
+    if s["status"] != "AcceptingUnconvergedIntegration" or s["stats"]["acc"] != 0:
+        return None
+    H = F(s["final"])
+    if H <= 0:
+        return f"AcceptingUnconvergedIntegration with final_time {s['final']!r}"
+    ns, rx = m["ns"], m["rx"]; nrx = len(rx)
+    for cidx in range(m["ncell"]):
+        A = [[F(0)] * ns for _ in range(ns)]
+        for q, (reactants, products) in enumerate(rx):
+            a = reactants[0]; k = F(m["k"][cidx * nrx + q])
+            A[a][a] -= k
+            for (pid, yl) in products:
+                A[pid][a] += F(yl) * k
+        M = [[(F(1) if i == j else F(0)) - H * A[i][j] for j in range(ns)] + [F(m["y"][cidx * ns + i])] for i in range(ns)]
+        for col in range(ns):     # Gauss-Jordan in exact arithmetic (I - H A is an M-matrix: non-singular)
+            piv = next((r_ for r_ in range(col, ns) if M[r_][col] != 0), None)
+            if piv is None: return None
+            M[col], M[piv] = M[piv], M[col]
+            for r_ in range(ns):
+                if r_ != col and M[r_][col] != 0:
+                    f = M[r_][col] / M[col][col]
+                    M[r_] = [x - f * y for x, y in zip(M[r_], M[col])]
+        exact = [float(M[i][ns] / M[i][i]) for i in range(ns)]
+        got = s["y"][cidx * ns:(cidx + 1) * ns]
+        scale = max(abs(v) for v in exact + [1e-300])
+        for i in range(ns):
+            if abs(got[i] - exact[i]) > 1e-9 * scale:
+                return (f"cell {cidx}: AcceptingUnconvergedIntegration with final_time_={s['final']!r} but the State does not hold the "
+                        f"backward-Euler solution at final_time_: species {i} is {got[i]!r}, (I - H A)^-1 y0 gives {exact[i]!r} (y0={m['y'][cidx*ns+i]!r})")
+    return None
+
 def oracle_trace_pair_marker(c, out):
     s = parse_solve(out) if out else None
     if s is None:
@@ -623,6 +663,19 @@ def g_c06(r, tier, env, Ls):
         tags = ["integ=%d" % p["integ"]]
         if p["dt"] < 2.220446049250313e-16: tags.append("dt<round_off")
         cs.append(Case(problem_line(p, trace=0), meta, "solve", oracle=oracle_c06, tags=tags))
+    # backward Euler that gives up (max_number_of_steps = 1 on a linear mechanism): the State must hold the solution at final_time_
+    for _ in range(40 if tier == "quick" else 800):
+        L = r.pick(Ls); ns = r.rng(1, 4); ncell = r.rng(1, 2 * max(L, 1) + 1)
+        rx = linear_mech(r, ns)
+        b = dict(env["be"]); b["max_number_of_steps"] = 1
+        if r.chance(0.5): b["time_step_reductions"] = [r.pick([0.5, 0.6, 0.3, 0.1]) for _ in range(5)]   # std::array<double, 5>
+        if r.chance(0.5): b["h_start"] = r.logu(1e-2, 1e1)
+        p = dict(integ=1, L=L, csc=r.below(2), kind=r.below(4), ncell=ncell, ns=ns, perm=r.shuffle(range(ns)), rx=rx,
+                 k=[r.logu(1e-2, 1e1) for _ in range(ncell * len(rx))], y=[r.logu(1e-2, 1e2) for _ in range(ncell * ns)],
+                 atol=[1e-12] * ns, rtol=1e-9, dt=r.logu(1e-1, 1e2), ptoks=G.be_param_tokens(b), pname=None)
+        meta = dict(p); meta["stages"] = None
+        cs.append(Case(problem_line(p, clamp=0, trace=0), meta, "solve", oracle=lambda c, out: oracle_c06(c, out) or oracle_be_unconverged_linear(c, out),
+                       tags=["integ=1", "be_gives_up_linear"]))
     return cs
 
 def oracle_norm(c, out):
@@ -1008,6 +1061,31 @@ def g_c13(r, tier, env, Ls):
             if L and blocks % L: c.tags.append("partial_group")
             cs.append(c)
         gid += 1
+    # rate constants: one cell's conditions and custom parameters among different neighbours (neighbours often share its
+    # temperature / pressure / air density exactly)
+    for _ in range(n):
+        line0, m0 = gen_rates_case(r, Ls)
+        t0 = line0.split(); nc0, nl = m0["ncell"], m0["nlabels"]
+        ptoks = t0[4:len(t0) - 3 * nc0 - nc0 * nl]
+        cond1 = m0["conds"][:3]; val1 = m0["vals"][:nl]
+        for _ in range(3):
+            ncell = r.rng(1, 3 * max(m0["L"], 1) + 1); pos = r.below(ncell)
+            conds = []; vals = []
+            for c in range(ncell):
+                if c == pos:
+                    conds += cond1; vals += val1
+                else:
+                    cc = [r.logu(150, 350), r.logu(1.0, 1.1e5), r.logu(1e-3, 1e2)]
+                    for q in range(3):
+                        if r.chance(0.5): cc[q] = cond1[q]
+                    conds += cc
+                    vals += [(val1[q] if r.chance(0.3) else r.pick([1e-7, 2.5e-8, 1.0, 3.0, 1e9, r.unit()])) for q in range(nl)]
+            line = " ".join(["rates", str(m0["L"]), str(ncell), str(m0["nproc"])] + ptoks + [hexd(x) for x in conds + vals])
+            c = Case(line, dict(pos=pos, key="k", ns=None, ncell=ncell), "rates-cell", group=(("c13", gid), grp_cell), drift_ok=rates_drift_ok,
+                     tags=["L=%d" % m0["L"], "rates"])
+            if m0["L"] and ncell % m0["L"]: c.tags.append("partial_group")
+            cs.append(c)
+        gid += 1
     # N identical cells evolve like one cell
     for _ in range(n // 4):
         p = gen_solve_problem(r, env, Ls, stiff=r.chance(0.3))
@@ -1214,8 +1292,13 @@ def gen_rates_case(r, Ls):
         procs_full.append((kind, npr, v, extra))
     conds = []
     for c in range(ncell):
-        T = r.logu(150, 350); Pp = r.logu(1.0, 1.1e5)
-        air = Pp / (8.31446261815324 * T)
+        # neighbouring cells often share some of their conditions (same T and P, other air density, ...), and the air
+        # density may come from the host model rather than from the ideal-gas law
+        T = conds[-3] if (c and r.chance(0.35)) else r.logu(150, 350)
+        Pp = conds[-2] if (c and r.chance(0.35)) else r.logu(1.0, 1.1e5)
+        if c and r.chance(0.2): air = conds[-1]
+        elif r.chance(0.6): air = Pp / (8.31446261815324 * T)
+        else: air = r.logu(1e-3, 1e2)
         conds += [T, Pp, air]
     toks += [hexd(x) for x in conds]
     vals = [r.pick([1e-7, 2.5e-8, 1.0, 3.0, 1e9, r.unit()]) for _ in range(ncell * nlabels)]
